@@ -5,65 +5,65 @@ package trace
 
 // ---- byte-level reference grammar (W3C trace-context, section 3.3)
 
-func refLc(c byte) bool    { return vndAnd(c >= 'a', c <= 'z') }
-func refDigit(c byte) bool { return vndAnd(c >= '0', c <= '9') }
-func refKeyChar(c byte) bool {
-	return vndOr(vndOr(refLc(c), refDigit(c)), vndOr(vndOr(c == '_', c == '-'), vndOr(c == '*', c == '/')))
+func c03RefLc(c byte) bool    { return vndAnd(c >= 'a', c <= 'z') }
+func c03RefDigit(c byte) bool { return vndAnd(c >= '0', c <= '9') }
+func c03RefKeyChar(c byte) bool {
+	return vndOr(vndOr(c03RefLc(c), c03RefDigit(c)), vndOr(vndOr(c == '_', c == '-'), vndOr(c == '*', c == '/')))
 }
 
-func refKeyRest(s string) bool {
+func c03RefKeyRest(s string) bool {
 	ok := true
 	for i := 0; i < len(s); i++ {
-		ok = vndAnd(ok, refKeyChar(s[i]))
+		ok = vndAnd(ok, c03RefKeyChar(s[i]))
 	}
 	return ok
 }
 
 // simple-key / system-id: lcalpha then at most n key chars
-func refSimple(s string, n int) bool {
+func c03RefSimple(s string, n int) bool {
 	if len(s) == 0 || len(s)-1 > n {
 		return false
 	}
-	return vndAnd(refLc(s[0]), refKeyRest(s[1:]))
+	return vndAnd(c03RefLc(s[0]), c03RefKeyRest(s[1:]))
 }
 
 // tenant-id: (lcalpha / DIGIT) then at most n key chars
-func refTenant(s string, n int) bool {
+func c03RefTenant(s string, n int) bool {
 	if len(s) == 0 || len(s)-1 > n {
 		return false
 	}
-	return vndAnd(vndOr(refLc(s[0]), refDigit(s[0])), refKeyRest(s[1:]))
+	return vndAnd(vndOr(c03RefLc(s[0]), c03RefDigit(s[0])), c03RefKeyRest(s[1:]))
 }
 
 // key = simple-key / tenant-id "@" system-id ; the split is at the first '@'.
-func refKeyN(k string, nSimple, nTenant, nSystem int) bool {
+func c03RefKeyN(k string, nSimple, nTenant, nSystem int) bool {
 	noAt := true
 	res := false
 	for i := 0; i < len(k); i++ {
 		here := vndAnd(noAt, k[i] == '@')
-		res = vndOr(res, vndAnd(here, vndAnd(refTenant(k[:i], nTenant), refSimple(k[i+1:], nSystem))))
+		res = vndOr(res, vndAnd(here, vndAnd(c03RefTenant(k[:i], nTenant), c03RefSimple(k[i+1:], nSystem))))
 		noAt = vndAnd(noAt, k[i] != '@')
 	}
-	return vndOr(res, vndAnd(noAt, refSimple(k, nSimple)))
+	return vndOr(res, vndAnd(noAt, c03RefSimple(k, nSimple)))
 }
 
-func refKey(k string) bool { return refKeyN(k, 255, 240, 13) }
+func c03RefKey(k string) bool { return c03RefKeyN(k, 255, 240, 13) }
 
-func refValChar(c byte) bool {
+func c03RefValChar(c byte) bool {
 	return vndAnd(vndAnd(c >= 0x20, c <= 0x7e), vndAnd(c != ',', c != '='))
 }
 
 // value = 0*255(chr) nblk-chr
-func refValue(v string) bool {
+func c03RefValue(v string) bool {
 	n := len(v)
 	if n == 0 || n > 256 {
 		return false
 	}
 	ok := true
 	for i := 0; i < n-1; i++ {
-		ok = vndAnd(ok, refValChar(v[i]))
+		ok = vndAnd(ok, c03RefValChar(v[i]))
 	}
-	return vndAnd(ok, vndAnd(refValChar(v[n-1]), v[n-1] != ' '))
+	return vndAnd(ok, vndAnd(c03RefValChar(v[n-1]), v[n-1] != ' '))
 }
 
 // ---- C03.key: checkKey against the grammar, arbitrary bytes
@@ -71,7 +71,7 @@ func refValue(v string) bool {
 func HarnessC03Key() {
 	k := vndString(vndParam("N", 4))
 	got := checkKey(k)
-	want := refKey(k)
+	want := c03RefKey(k)
 	if got {
 		vndReach("accept")
 	} else {
@@ -86,9 +86,9 @@ func HarnessC03KeyPart() {
 	k := vndString(vndParam("N", 4))
 	n := vndChoice(4)
 	got := checkKeyPart(k, n)
-	vndAssert(got == refSimple(k, n), "checkKeyPart-equals-grammar")
+	vndAssert(got == c03RefSimple(k, n), "checkKeyPart-equals-grammar")
 	got2 := checkKeyTenant(k, n)
-	vndAssert(got2 == refTenant(k, n), "checkKeyTenant-equals-grammar")
+	vndAssert(got2 == c03RefTenant(k, n), "checkKeyTenant-equals-grammar")
 	if got {
 		vndReach("accept")
 	}
@@ -102,7 +102,7 @@ func HarnessC03Value() {
 	} else {
 		vndReach("reject")
 	}
-	vndAssert(got == refValue(v), "checkValue-equals-grammar")
+	vndAssert(got == c03RefValue(v), "checkValue-equals-grammar")
 }
 
 func HarnessC03Vacuity() {
@@ -114,19 +114,19 @@ func HarnessC03Vacuity() {
 
 // ---- C03.parse: ParseTraceState on arbitrary bytes (maxListMembers scaled by a source transform)
 
-func refMemberOK(m member) bool { return vndAnd(refKey(m.Key), refValue(m.Value)) }
+func c03RefMemberOK(m member) bool { return vndAnd(c03RefKey(m.Key), c03RefValue(m.Value)) }
 
-func checkParsed(ts TraceState, tag string) {
+func c03CheckParsed(ts TraceState, tag string) {
 	vndAssert(len(ts.list) <= maxListMembers, tag+"-at-most-max-members")
 	for i := range ts.list {
-		vndAssert(refMemberOK(ts.list[i]), tag+"-member-conforms-to-grammar")
+		vndAssert(c03RefMemberOK(ts.list[i]), tag+"-member-conforms-to-grammar")
 		for j := 0; j < i; j++ {
 			vndAssert(ts.list[i].Key != ts.list[j].Key, tag+"-keys-unique")
 		}
 	}
 }
 
-func sameList(a, b []member) bool {
+func c03SameList(a, b []member) bool {
 	if len(a) != len(b) {
 		return false
 	}
@@ -151,13 +151,13 @@ func HarnessC03Parse() {
 	if len(ts.list) > 1 {
 		vndReach("accept-two")
 	}
-	checkParsed(ts, "parse")
+	c03CheckParsed(ts, "parse")
 	// re-serialise and re-parse: same members in the same order
 	out := ts.String()
 	ts2, err2 := ParseTraceState(out)
 	vndAssert(err2 == nil, "parse-string-reparses")
 	if err2 == nil {
-		vndAssert(sameList(ts.list, ts2.list), "parse-string-roundtrip")
+		vndAssert(c03SameList(ts.list, ts2.list), "parse-string-roundtrip")
 	}
 }
 
@@ -175,8 +175,8 @@ func HarnessC03ParseStructured() {
 		}
 		key := vndStringN(kl)
 		val := vndStringN(1)
-		vndAssume(refKey(key))
-		vndAssume(refValue(val))
+		vndAssume(c03RefKey(key))
+		vndAssume(c03RefValue(val))
 		for j := range ms {
 			vndAssume(key != ms[j].Key)
 		}
@@ -196,19 +196,19 @@ func HarnessC03ParseStructured() {
 	vndReach("accepted")
 	vndAssert(err == nil, "valid-header-accepted")
 	if err == nil {
-		vndAssert(sameList(ts.list, ms), "valid-header-members-in-order")
+		vndAssert(c03SameList(ts.list, ms), "valid-header-members-in-order")
 	}
 }
 
 // ---- C03.edit: one Insert / Delete from an arbitrary valid TraceState
 
-func arbitraryValidTS(n int) TraceState {
+func c03ArbitraryValidTS(n int) TraceState {
 	var ms []member
 	for i := 0; i < n; i++ {
 		key := vndStringN(1)
 		val := vndStringN(1)
-		vndAssume(refKey(key))
-		vndAssume(refValue(val))
+		vndAssume(c03RefKey(key))
+		vndAssume(c03RefValue(val))
 		for j := range ms {
 			vndAssume(key != ms[j].Key)
 		}
@@ -219,18 +219,18 @@ func arbitraryValidTS(n int) TraceState {
 
 func HarnessC03Insert() {
 	n := vndChoice(maxListMembers + 1)
-	ts := arbitraryValidTS(n)
+	ts := c03ArbitraryValidTS(n)
 	before := append([]member(nil), ts.list...)
 	k := vndString(vndParam("KN", 2))
 	v := vndString(vndParam("VN", 1))
 	got, err := ts.Insert(k, v)
 	// the receiver is never modified
-	vndAssert(sameList(ts.list, before), "insert-receiver-unchanged")
-	valid := vndAnd(refKey(k), refValue(v))
+	vndAssert(c03SameList(ts.list, before), "insert-receiver-unchanged")
+	valid := vndAnd(c03RefKey(k), c03RefValue(v))
 	vndAssert((err == nil) == valid, "insert-error-iff-invalid-key-or-value")
 	if err != nil {
 		vndReach("rejected")
-		vndAssert(sameList(got.list, before), "insert-error-returns-original")
+		vndAssert(c03SameList(got.list, before), "insert-error-returns-original")
 		return
 	}
 	// model: (k,v) first, then the old members without k, cut on the right to max
@@ -252,17 +252,17 @@ func HarnessC03Insert() {
 	} else {
 		vndReach("insert")
 	}
-	vndAssert(sameList(got.list, want), "insert-newest-first-drop-rightmost")
-	checkParsed(got, "insert")
+	vndAssert(c03SameList(got.list, want), "insert-newest-first-drop-rightmost")
+	c03CheckParsed(got, "insert")
 }
 
 func HarnessC03Delete() {
 	n := vndChoice(maxListMembers + 1)
-	ts := arbitraryValidTS(n)
+	ts := c03ArbitraryValidTS(n)
 	before := append([]member(nil), ts.list...)
 	k := vndString(2)
 	got := ts.Delete(k)
-	vndAssert(sameList(ts.list, before), "delete-receiver-unchanged")
+	vndAssert(c03SameList(ts.list, before), "delete-receiver-unchanged")
 	var want []member
 	for i := range before {
 		if before[i].Key == k {
@@ -271,7 +271,7 @@ func HarnessC03Delete() {
 		}
 		want = append(want, before[i])
 	}
-	vndAssert(sameList(got.list, want), "delete-removes-exactly-key")
-	checkParsed(got, "delete")
+	vndAssert(c03SameList(got.list, want), "delete-removes-exactly-key")
+	c03CheckParsed(got, "delete")
 	vndAssert(got.Get(k) == "", "delete-get-empty")
 }
